@@ -68,3 +68,18 @@ Proof.
   - intros H. inversion H; subst. exists [], e, r. auto.
   - intros H. destruct (IH H) as (pre & e' & post & -> & Hb). exists (e :: pre), e', post. auto.
 Qed.
+
+(* the hypotheses of the CSV theorems (Props/C07.v c1, c2) are satisfiable: the machine of the normal flow rests
+   in a waiting state after the broadcast, with a record, a known chain and policy, and no spend recorded *)
+Example ex_waiting_state :
+  match hs_machine (ex_run [ex_start; HStep ex_agreement ex_w_agr]) with
+  | Some m =>
+      mem (m_cur m) (post_states table_swap_in_sender) = true /\
+      waiting_state table_swap_in_sender (m_cur m) = true /\
+      is_fin terminal_states (m_cur m) = false /\
+      chain_known (m_data m) = true /\ str_nonempty (d_claim_txid (m_data m)) = false /\
+      otb_matches (m_data m) ex_open = true /\
+      option_map p_csv (timelock_policy tl_consts_gen (m_data m)) = Some 1008
+  | None => False
+  end.
+Proof. vm_compute. repeat split; reflexivity. Qed.
